@@ -739,7 +739,8 @@ fn m_blocked_writer_released_on_teardown() {
     d.disallow_write();
     let again = s.poll_obtain_write_permission(&c);
     assert!(matches!(again, Poll::Ready(None)), "C08.blocked_writer.released: after the connection or flow ended a blocked (or later) write fails with BrokenPipe whatever the credit");
-    assert!(matches!(s.poll_write_push(&c, b"x"), Poll::Ready(None)), "C08.blocked_writer.no_send");
+    let one = [7u8];
+    assert!(matches!(s.poll_write_push(&c, &one), Poll::Ready(None)), "C08.blocked_writer.no_send");
     core::mem::forget((s, d, w));
 }
 
